@@ -45,6 +45,8 @@ func (fs *factSet) set(name, body, doc string) {
 }
 
 func (fs *factSet) flush() {
+	// parameters a definition does not use (e.g. `batchesCapped (n len : Int) : Int := len`) are deliberate
+	fs.x.emit("set_option linter.unusedVariables false\n\n")
 	for _, f := range fs.list {
 		fs.x.emit("/-- %s -/\ndef %s %s := %s\n", strings.ReplaceAll(f.doc, "-/", "- /"), f.name, f.sig, f.body)
 	}
